@@ -61,11 +61,6 @@ def finish(ctx):
 def gen_source(rng, ctx):
     r = rng.random()
     hostile = False
-    if rng.random() < 0.025:
-        # one clause whose body is a chain of hundreds of alternatives (a generated lookup predicate): how much stack
-        # compiling it needs must not depend on the debug flags (either every run compiles it or none does)
-        n = rng.choice([50, 200, 300, 450, 520, 700])      # (not near 370, where the depth of the caller decides)
-        return 'lookup(X) :- %s.\nother(a).\n' % ' ; '.join('X = c%d' % i for i in range(n)), False
     if r < 0.35:
         c = {}
         lines = []
@@ -179,12 +174,51 @@ def case_big_input(ctx, rng, c):
     return {'c': c, 'nt': True, 'key': ('big', size, ch, pad)}
 
 
+def case_long_disjunction(ctx, rng, c):
+    """one clause whose body is a chain of hundreds of alternatives (a generated lookup predicate), compiled by the
+    command line without and with each debug option: either every run compiles it to the library's code, or - when
+    the library itself cannot (recursion depth) - every run fails. How much stack a compilation needs must not
+    depend on the debug options."""
+    real = ctx['real']
+    n = rng.choice([200, 300, 450, 520, 700])         # (not near 370, where the depth of the caller decides)
+    text = 'lookup(X) :- %s.\nother(a).\n' % ' ; '.join('X = c%d' % i for i in range(n))
+    tmp = tempfile.mkdtemp(prefix='ypv-c19d-')
+    try:
+        path = os.path.join(tmp, 'lookup.prolog')
+        with open(path, 'w', encoding='utf8', newline='') as f:
+            f.write(text)
+        try:
+            want = real.Cm.compile_prolog_from_file(path, Ctx)
+        except RecursionError:
+            want = None
+        except Exception as e:
+            return {'c': c, 'nt': False, 'key': None, 'discard': 'library_rejects:' + type(e).__name__}
+        for fl in ([], ['--debug-parser'], ['--debug-generator'], ['-d'], ['--debug-filename']):
+            try:
+                rc, out, err, raw = run_cli(tmp, fl, [path], 'stdout', 'files')
+            except subprocess.TimeoutExpired:
+                continue
+            c['cli_runs'] = c.get('cli_runs', 0) + 1
+            c['long_disjunction_runs'] = c.get('long_disjunction_runs', 0) + 1
+            if want is None and rc == 0:
+                continue        # (the command line may have a little more stack than this process: not judged)
+            if want is not None and (rc != 0 or strip_comments(out) != strip_comments(want)):
+                return {'c': c, 'nt': True, 'key': None,
+                        'v': {'kind': 'debug_options_change_whether_a_large_clause_compiles', 'detail': {'alternatives': n, 'flags': fl, 'returncode': rc, 'stderr': err[-200:]},
+                              'witness': {'alternatives': n, 'flags': fl, 'sources': ['lookup(X) :- X = c0 ; X = c1 ; ... (%d alternatives)' % n]}}}
+    finally:
+        shutil.rmtree(tmp, ignore_errors=True)
+    return {'c': c, 'nt': True, 'key': ('long_disjunction', n)}
+
+
 def run_case(ctx, seed, idx, tier):
     rng = random.Random((seed * 1000003 + idx) * 7 + 19)
     real = ctx['real']
     c = {}
     if idx % 12 == 11:
         return case_big_input(ctx, rng, c)
+    if idx % 12 == 5:
+        return case_long_disjunction(ctx, rng, c)
     from ..harness import h64
     keys = []
     tmp = tempfile.mkdtemp(prefix='ypv-c19-')
